@@ -923,7 +923,7 @@ class IRGenerator:
                                 raise ValueError(
                                     'the default of a union must be one of '
                                     'its void tags')
-                            if (field.data_type.name in ('Float32', 'Float64') and
+                            if (unwrapped_dt.name in ('Float32', 'Float64') and
                                     isinstance(default_value, numbers.Real)):
                                 # You can assign int to the default value of float type
                                 # However float type should always have default value in float
